@@ -261,9 +261,18 @@ func runC06(seed int64, n int, dir string, tier string) *Report {
 	for _, nm := range nearMiss {
 		probe("near-miss", []byte(nm.s), nm.want, true)
 	}
+	// every truncation of tag-value headers, with and without a line end after the cut
+	for _, text := range []string{"SPDXVersion: SPDX-2.3\nDataLicense: CC0-1.0\n", "# c\r\nSPDXVersion: SPDX-2.2\r\nDataLicense: CC0-1.0\r\n", "SPDXVersion:SPDX-2.3"} {
+		for k := 0; k <= len(text); k++ {
+			for _, tail := range []string{"", "\n", "\r\n"} {
+				probe("tag-value-prefix", []byte(text[:k]+tail), "", false)
+			}
+		}
+	}
 	// every combination of the three members over both families' version strings: a format is
 	// reported only when the declaration states it (a CycloneDX document with a known specVersion;
 	// otherwise a document with a known spdxVersion), never through the other family's spelling
+	gridN := 0
 	boms := []string{"-", "CycloneDX", "cyclonedx", "CYCLONEDX", "Cyclone", ""}
 	vers := []string{"-", "1.3", "1.4", "1.5", "1.2", "1.6", "SPDX-2.2", "SPDX-2.3", "SPDX-2.1", "2.3", ""}
 	cdxWant := map[string]formats.Format{"1.3": formats.CDX13JSON, "1.4": formats.CDX14JSON, "1.5": formats.CDX15JSON}
@@ -289,6 +298,15 @@ func runC06(seed int64, n int, dir string, tier string) *Report {
 					want = spdxWant[xv]
 				}
 				probe("declaration-grid", []byte("{"+strings.Join(members, ",")+"}"), want, true)
+				gridN++
+				if gridN%3 == 0 {
+					// the same declaration in a document whose text happens to quote a tag-value header inside a
+					// string value, on the declaration's own line and on a line of its own
+					quote := fmt.Sprintf("%q:%q", "comment", "converted from a tag-value file (SPDXVersion: "+gen.Pick(g, []string{"SPDX-2.3", "SPDX-2.2"})+")")
+					withQuote := append(append([]string{}, members...), quote)
+					probe("declaration-grid-quoting-tag", []byte("{"+strings.Join(withQuote, ",")+"}"), want, true)
+					probe("declaration-grid-quoting-tag", []byte("{\n"+strings.Join(withQuote, ",\n")+"\n}"), want, true)
+				}
 			}
 		}
 	}
